@@ -3,7 +3,7 @@
 use arroy::{Distance, Writer};
 use heed::RwTxn;
 
-use crate::engine::{adb, guarded, CaseEnd, Engine, Model, Violation, World};
+use crate::engine::{adb, guarded, CaseEnd, Engine, Model, World};
 use crate::metric::Metric;
 use crate::oracle;
 use crate::rawdb::{self, Dump, KIND_ITEM, KIND_METADATA, KIND_TREE};
@@ -13,9 +13,6 @@ fn change<D: Distance, ND: Distance>(wtxn: &mut RwTxn, db: rawdb::RawDb, index: 
     guarded(|| Writer::<D>::new(adb::<D>(db), index, dims).prepare_changing_distance::<ND>(wtxn).map(|_| ()))
 }
 
-fn vio(step: usize, key: &str, msg: String) -> Option<CaseEnd> {
-    Some(CaseEnd::Violation(Violation { step, key: key.to_string(), msg }))
-}
 
 #[allow(clippy::too_many_arguments)]
 pub fn apply_change_metric(
@@ -29,6 +26,12 @@ pub fn apply_change_metric(
     pre: &Dump,
 ) -> Option<CaseEnd> {
     let db = world.db;
+    let owned = e.p.checks.metric_change;
+    macro_rules! vio {
+        ($step:expr, $key:expr, $msg:expr) => {
+            Some(e.own(owned, $step, $key, $msg))
+        };
+    }
     let (index, from, dims) = {
         let m = &model.ix[op_ix];
         (m.index, m.metric, m.dims)
@@ -37,14 +40,14 @@ pub fn apply_change_metric(
     let r = with_metric!(from, D, with_metric!(to, ND, change::<D, ND>(wtxn, db, index, dims)));
     match r {
         Ok(Ok(())) => {}
-        Ok(Err(err)) => return vio(step, "metric-change:error", format!("{desc} failed: {err:?}")),
-        Err(p) => return vio(step, "metric-change:panic", format!("{desc} panicked: {p}")),
+        Ok(Err(err)) => return vio!(step, "metric-change:error", format!("{desc} failed: {err:?}")),
+        Err(p) => return vio!(step, "metric-change:panic", format!("{desc} panicked: {p}")),
     }
     e.c.inc(&format!("metric_change_{}_to_{}", from.short(), to.short()));
     let post = rawdb::dump(wtxn, db).unwrap();
     if from == to {
         if let Some(d) = rawdb::first_diff(pre, &post) {
-            return vio(step, "metric-change:same", format!("{desc} (same metric) must change nothing, but {d}"));
+            return vio!(step, "metric-change:same", format!("{desc} (same metric) must change nothing, but {d}"));
         }
         e.c.inc("metric_change_same_unchanged");
         return None;
@@ -73,21 +76,21 @@ pub fn apply_change_metric(
     for (k, v) in &own {
         let key = match rawdb::parse_key(k) {
             Ok(k) => k,
-            Err(err) => return vio(step, "metric-change:decode", format!("{desc}: {err}")),
+            Err(err) => return vio!(step, "metric-change:decode", format!("{desc}: {err}")),
         };
         match key.kind {
-            KIND_TREE => return vio(step, "metric-change:forest-left", format!("{desc}: tree node {} of the old forest is still there", key.id)),
-            KIND_METADATA if key.id == 0 => return vio(step, "metric-change:metadata-left", format!("{desc}: the old metadata is still there")),
+            KIND_TREE => return vio!(step, "metric-change:forest-left", format!("{desc}: tree node {} of the old forest is still there", key.id)),
+            KIND_METADATA if key.id == 0 => return vio!(step, "metric-change:metadata-left", format!("{desc}: the old metadata is still there")),
             KIND_ITEM => {
                 n_items += 1;
                 let want = match m.items.get(&key.id) {
                     Some(w) => w,
-                    None => return vio(step, "metric-change:items", format!("{desc}: item {} appeared", key.id)),
+                    None => return vio!(step, "metric-change:items", format!("{desc}: item {} appeared", key.id)),
                 };
                 let item = match rawdb::decode_item(v, to, dims, &format!("item {}", key.id)) {
                     Ok(i) => i,
                     Err(err) => {
-                        return vio(step, "metric-change:leaf-layout", format!("{desc}: stored leaf is not in the new metric's layout at the declared dimension: {err}"))
+                        return vio!(step, "metric-change:leaf-layout", format!("{desc}: stored leaf is not in the new metric's layout at the declared dimension: {err}"))
                     }
                 };
                 let ok = if to.is_bq() {
@@ -99,26 +102,26 @@ pub fn apply_change_metric(
                     got.iter().zip(&want).all(|(a, b)| a.to_bits() == b.to_bits())
                 };
                 if !ok {
-                    return vio(step, "metric-change:vector", format!("{desc}: stored vector of item {} is not the old vector as representable under the new metric", key.id));
+                    return vio!(step, "metric-change:vector", format!("{desc}: stored vector of item {} is not the old vector as representable under the new metric", key.id));
                 }
             }
             _ => {}
         }
     }
     if n_items != m.items.len() {
-        return vio(step, "metric-change:items", format!("{desc}: {n_items} items stored afterwards, {} before", m.items.len()));
+        return vio!(step, "metric-change:items", format!("{desc}: {n_items} items stored afterwards, {} before", m.items.len()));
     }
     e.c.add("metric_change_leaves_checked", n_items as u64);
     // need_build, and the old metric no longer opens
     let nb = with_metric!(to, ND, Writer::<ND>::new(adb::<ND>(db), index, dims).need_build(wtxn));
     match nb {
         Ok(true) => {}
-        other => return vio(step, "metric-change:need-build", format!("{desc}: need_build -> {other:?}, expected true")),
+        other => return vio!(step, "metric-change:need-build", format!("{desc}: need_build -> {other:?}, expected true")),
     }
     // through the API under the new metric
     let probe: Vec<u32> = m.items.keys().copied().take(6).collect();
     if let Err(err) = with_metric!(to, ND, crate::engine::check_store::<ND>(wtxn, db, &m, &probe, true, &mut e.c)) {
-        return vio(step, "metric-change:store", format!("{desc}: {err}"));
+        return vio!(step, "metric-change:store", format!("{desc}: {err}"));
     }
     None
 }
